@@ -7,8 +7,8 @@ TB = ("Trusted: Coq 8.16.1 kernel (vm_compute, no native_compute, no axioms: eve
       "and implementation on the same cases; translators for generated data. Modelled not verified: CPython, NumPy/JAX/TF, typeguard, beartype. ")
 
 P = {
- "C01": dict(text="Theorems (all ranks, sizes, histories) about the executable model of _check_dims/_check_shape/__instancecheck_str__: an accepted check narrows the set of consistent axis assignments by exactly the documented meaning of the dim string (gamma m' = gamma m ∩ use_sat), a rejected one means no consistent assignment satisfies it, AnnotationError iff an evaluated symbolic axis mentions an unbound name; slices partition the shape; broadcasting is the lub. Tie: differential correspondence (model evaluated inside Coq by vm_compute) on sessions of checks incl. the exact memo after every check; memo-only disagreements are extended by follow-up checks into a wrong verdict.",
-             tech='Coq proof over executable Gallina model + differential correspondence (vm_compute) with failing-input search', ref="11/C01"),
+ "C01": dict(text='Theorems (all ranks, sizes, histories) about the executable model of _check_dims/_check_shape/__instancecheck_str__: an accepted check narrows the set of consistent axis assignments by exactly the documented meaning of the dim string, a rejected one means no consistent assignment satisfies it, AnnotationError iff an evaluated symbolic axis mentions an unbound name; slices partition the shape; broadcasting is the lub. Tie, two ways: (1) _check_dims and _check_shape are REGENERATED FROM THE SOURCE on every run as terms of a deep embedding (model/PyL.v, translator/tr_pyl.py) and proved to compute the model for all inputs (C01_check_dims_source_refines_model, C01_check_shape_source_refines_model; the parser is proved to yield at most one variadic at index_variadic); (2) differential correspondence inside Coq on sessions of checks incl. the exact memo, on the two functions called directly vs the interpreted source terms, and with re-used annotation objects / parked threads; memo-only disagreements are extended into a wrong verdict.',
+             tech='Coq proof over executable Gallina model + source-to-deep-embedding translator with refinement proof + differential correspondence (vm_compute) with failing-input search', ref="11/C01"),
  "C02": dict(text="Theorems: a non-raising walk from a fresh context accepts iff ONE assignment satisfies every use; verdict invariant under permutation of the uses; the wrapper's second pass re-walks accepted uses without changing anything, so call_new succeeds iff a consistent assignment exists. Tie: generated decorated functions under all admissible parameter permutations, positional/keyword, typeguard and beartype, both spellings, dataclass, half of them after unrelated failing/raising PyTree checks. The typecheckers themselves are third-party: that clause is validated, not proved.",
              tech='Coq proof (gamma invariant, permutation invariance, two-pass lemma) + differential/metamorphic correspondence on decorated calls', ref="11/C02"),
  "C03": dict(text='Category tables regenerated from the source by a fail-closed translator; theorems: for every string, table membership equals the documented hierarchy; inclusions/disjointness; verdict is a function of the extracted dtype name; user categories = string equality or anchored-prefix regex match (Brzozowski derivatives). Tie: complete enumeration of the dtypes the installed libraries can produce x 34 categories x NumPy/JAX(tracers, keys)/TensorFlow/duck backends with an oracle independent of jaxtyping.',
